@@ -48,6 +48,10 @@ def make_message(I, kind):
     I.assume(z3.Or(V.is_none(params), V.is_dict(params), V.is_list(params), V.is_str(params), V.is_int(params),
                    V.is_bool(params)))
     I.assume(z3.Implies(V.is_dict(params), Val.dsize(params) >= 0))
+    # dict well-formedness (a dict that contains a key is not empty), ground-instantiated at the looked-up keys
+    for k in ("protocolVersion", "clientInfo", "name", "uri", "arguments"):
+        I.assume(z3.Implies(z3.And(V.is_dict(params), z3.Select(Val.dkeys(params), z3.StringVal(k))),
+                            Val.dsize(params) >= 1))
     cd = I.ctx.env_class(MESSAGE)
     m = I.new_object(cd, {"id": mid, "method": method, "params": params, "jsonrpc": V.VStr("2.0")})
     return m, mid, method, params
